@@ -68,6 +68,9 @@ def recoverActions (mc ms : List Machine) (a : Args) (trace : List SimEvent) (or
 
 end
 
+/-- diagnostic wording used in monitor messages -/
+def durClass (d : Nat) : String := if d = 0 then "zero" else "positive"
+
 /-- update position `i` of a list (no-op out of range) -/
 def setAt (l : List α) (i : Nat) (x : α) : List α := l.set i x
 
